@@ -2,3 +2,5 @@ SPECIFICATION TraceSpec
 CHECK_DEADLOCK TRUE
 CONSTANTS
   SourceFileBounded = TRUE
+  KeepUnmapped = TRUE
+  CauseCounts = FALSE
